@@ -512,13 +512,17 @@ def format_fields(rep: Report, ix: Any, tn: str, scopes: "list[Scope]") -> int:
 
 
 def _strings_of(ix: Any, g: Any, e: ast.AST, lc: Locals, depth: int = 0) -> "list[str] | None":
-    """The strings of a collection expression: a literal list / tuple / set of string constants (possibly wrapped in set() /
-    frozenset() / tuple() / list()), or a local, module constant or class constant bound to one."""
+    """The strings of a collection expression: a literal list / tuple / set of string constants or a dict with such keys (possibly
+    wrapped in set() / frozenset() / tuple() / list()), or a local, module constant or class constant bound to one."""
     if isinstance(e, ast.Call) and norm(e.func) in ("set", "frozenset", "tuple", "list") and len(e.args) == 1 and not e.keywords:
         e = e.args[0]
     if isinstance(e, (ast.List, ast.Tuple, ast.Set)):
         if e.elts and all(isinstance(x, ast.Constant) and isinstance(x.value, str) for x in e.elts):
             return [x.value for x in e.elts]  # type: ignore[union-attr]
+        return None
+    if isinstance(e, ast.Dict):  # membership in a dict is membership in its keys
+        if e.keys and all(isinstance(x, ast.Constant) and isinstance(x.value, str) for x in e.keys):
+            return [x.value for x in e.keys]  # type: ignore[union-attr]
         return None
     if depth > 3:
         return None
@@ -539,29 +543,295 @@ def _strings_of(ix: Any, g: Any, e: ast.AST, lc: Locals, depth: int = 0) -> "lis
     return None
 
 
-def reserved_parameter_names(ix: Any, f: Any) -> set[str]:
-    """The strings a parameter's python_name is compared with (`in` a collection of strings, `==` a string) in f or the private
-    helpers it delegates to - however the collection is held and whatever the tested local is called."""
-    out: set[str] = set()
-    for g in region(ix, f):
-        lc = Locals(g.node)
+# ---- R18.2: the reservation of the endpoint functions' own argument names -----------------------------------------------------
+class NameTest:
+    """a comparison of a value made from a document name with a table of strings"""
 
-        def is_name(e: ast.AST) -> bool:
-            return any(t.strip().endswith(".python_name") for t in resolved_text(e, g.node).split(" <- "))
+    def __init__(self, g: Any, node: ast.AST, strings: "list[str]", level: str) -> None:
+        self.g, self.node, self.strings, self.level = g, node, sorted(set(strings)), level
 
-        for c in ast.walk(g.node):
-            if not isinstance(c, ast.Compare):
+
+_STR_METHODS = ("lower", "upper", "casefold", "strip", "lstrip", "rstrip", "removeprefix", "removesuffix", "replace", "title")
+
+
+def name_level(ix: Any, g: Any, e: ast.AST, scope: "list[Any]", depth: int = 0) -> "set[str]":
+    """Which spelling of a document name the value of expression e of g IS: "identifier" - the Python identifier made from it
+    (`<x>.python_name`, a PythonIdentifier built on the spot) -, "spelling" - the document's own (`<x>.name`).  The value is followed
+    through locals (every binding; the members of an unpacked tuple and the elements of a comprehension one by one), conditional
+    expressions, str(), string methods that keep it a name, the return values of the functions of the module and, for a parameter
+    of g, the arguments g is called with.  Anything else is no name: the empty set."""
+    from .registries import callers_of
+
+    if depth > 6:
+        return set()
+    if isinstance(e, ast.Attribute):
+        return {"identifier"} if e.attr == "python_name" else {"spelling"} if e.attr == "name" else set()
+    if isinstance(e, ast.IfExp):
+        return name_level(ix, g, e.body, scope, depth + 1) | name_level(ix, g, e.orelse, scope, depth + 1)
+    if isinstance(e, ast.NamedExpr):
+        return name_level(ix, g, e.value, scope, depth + 1)
+    if isinstance(e, ast.Call):
+        last = norm(e.func).rsplit(".", 1)[-1]
+        if last == "PythonIdentifier":
+            return {"identifier"}
+        if last == "str" and len(e.args) == 1:
+            return name_level(ix, g, e.args[0], scope, depth + 1)
+        if isinstance(e.func, ast.Attribute) and last in _STR_METHODS:
+            return name_level(ix, g, e.func.value, scope, depth + 1)
+        h = _callee(ix, g, e)
+        out: set[str] = set()
+        if h is not None:
+            for r in ast.walk(h.node):
+                if isinstance(r, ast.Return) and r.value is not None:
+                    out |= name_level(ix, h, r.value, scope, depth + 1)
+        return out
+    if isinstance(e, ast.Name):
+        out = set()
+        for kind, _st, v in Locals(g.node).defs.get(e.id, []):
+            if v is None:
                 continue
-            left = c.left
-            for op, right in zip(c.ops, c.comparators):
-                if isinstance(op, (ast.In, ast.NotIn)) and is_name(left):
-                    out |= set(_strings_of(ix, g, right, lc) or [])
-                elif isinstance(op, (ast.Eq, ast.NotEq)):
-                    for a, b in ((left, right), (right, left)):
-                        if is_name(a) and isinstance(b, ast.Constant) and isinstance(b.value, str):
-                            out.add(b.value)
-                left = right
+            idx = [int(i) for i in re.findall(r"\[(\d+)\]", kind)]
+            if kind.startswith("for"):
+                v = v.elt if isinstance(v, (ast.GeneratorExp, ast.ListComp, ast.SetComp)) else None
+            for i in idx:
+                v = v.elts[i] if isinstance(v, (ast.Tuple, ast.List)) and i < len(v.elts) else None
+            if v is not None and not kind.startswith(("aug", "with", "except")):
+                out |= name_level(ix, g, v, scope, depth + 1)
+        if e.id in {a.arg for a in g.params}:
+            for h, call in callers_of(ix, g, scope):
+                a = _bound_args(g, call).get(e.id)
+                if a is not None:
+                    out |= name_level(ix, h, a, scope, depth + 1)
+        return out
+    return set()
+
+
+def _case_strings(p: ast.AST) -> "list[str] | None":
+    if isinstance(p, ast.MatchValue) and isinstance(p.value, ast.Constant) and isinstance(p.value.value, str):
+        return [p.value.value]
+    if isinstance(p, ast.MatchOr):
+        got = [_case_strings(q) for q in p.patterns]
+        return [x for r in got for x in r] if all(r is not None for r in got) else None  # type: ignore[union-attr]
+    return None
+
+
+def name_tests(ix: Any, fns: "list[Any]") -> "list[NameTest]":
+    """Every test, in the given functions, of a value made from a document name against strings written in the generator: `in` /
+    `not in` a collection of strings (a literal, a local, a module or class constant; a dict counts by its keys), `==` / `!=` a
+    string, a `match` on string cases - whatever the tested local is called and wherever the value was read."""
+    out: list[NameTest] = []
+    for g in fns:
+        lc = Locals(g.node)
+        for c in ast.walk(g.node):
+            found: list[tuple[ast.AST, list[str]]] = []
+            if isinstance(c, ast.Compare):
+                left = c.left
+                for op, right in zip(c.ops, c.comparators):
+                    if isinstance(op, (ast.In, ast.NotIn)):
+                        tbl = _strings_of(ix, g, right, lc)
+                        if tbl:
+                            found.append((left, tbl))
+                    elif isinstance(op, (ast.Eq, ast.NotEq)):
+                        for x, y in ((left, right), (right, left)):
+                            if isinstance(y, ast.Constant) and isinstance(y.value, str) and not isinstance(x, ast.Constant):
+                                found.append((x, [y.value]))
+                    left = right
+            elif isinstance(c, ast.Match):
+                tbl = [s_ for k in c.cases for s_ in (_case_strings(k.pattern) or [])]
+                if tbl:
+                    found.append((c.subject, tbl))
+            for x, tbl in found:
+                levels = name_level(ix, g, x, fns)
+                if levels:
+                    # the identifier only if on every path: one path on which the document's spelling is tested decides
+                    out.append(NameTest(g, c, tbl, "spelling" if "spelling" in levels else "identifier"))
     return out
+
+
+def conflict_passes(ix: Any, f: Any, tests: "list[NameTest]") -> "list[tuple[Any, ast.For, list[NameTest], list[ast.AST]]]":
+    """The passes over the parameters of an operation in which each one's identifier is tested against the reserved names, in f or
+    the private helpers it delegates to: (function, loop, the tests made in one round of it, where in the function they are made).  A
+    test made by a helper that has no such loop itself is made where the helper is called; the pass is the outermost loop of its
+    function around such a place (in its body, or in what it iterates over)."""
+    reg = region(ix, f)
+    by_name = {g.name: g for g in reg}
+    memo: dict[str, tuple[list, list]] = {}
+
+    def look(g: Any, stack: tuple[str, ...]) -> tuple[list, list]:
+        """(the places of g where tests are made, the outermost loops of g around such places)"""
+        if g.qual in memo:
+            return memo[g.qual]
+        here: list[tuple[ast.AST, list[NameTest]]] = [(t.node, [t]) for t in tests if t.g is g]
+        for c in ast.walk(g.node):
+            h = by_name.get(norm(c.func).rsplit(".", 1)[-1]) if isinstance(c, ast.Call) else None
+            if h is not None and h is not g and h.qual not in stack:
+                places, own_loops = look(h, stack + (g.qual,))
+                if places and not own_loops:
+                    here.append((c, [t for _n, ts in places for t in ts]))
+        loops = []
+        for lp in ast.walk(g.node):
+            if isinstance(lp, (ast.For, ast.AsyncFor)):
+                inside = {id(n) for s_ in [lp.iter, *lp.body] for n in ast.walk(s_)}
+                at = [(n, tl) for n, tl in here if id(n) in inside]
+                if at:
+                    loops.append((lp, [t for _n, tl in at for t in tl], [n for n, _tl in at]))
+        outer = [x for x in loops if not any(o[0] is not x[0] and any(y is x[0] for y in ast.walk(o[0])) for o in loops)]
+        memo[g.qual] = (here, outer)
+        return memo[g.qual]
+
+    return [(g, lp, ts, at) for g in reg for lp, ts, at in look(g, ())[1]]
+
+
+def conflict_pass_rules(rep: Report, ctx: Any, rid: str, f: Any, passes: "list[tuple[Any, ast.For, list[NameTest], list[ast.AST]]]") -> None:
+    """Conflict resolution of operation parameters ends in a re-check; reserved names are examined for every parameter.  The check is
+    a pass over all parameters plus something that repeats the pass while it changed anything; pass and repetition may be one
+    function (the pass calls itself again) or two (a driver loop around an extracted pass): every fact is stated over the region.
+    (registries.check_param_conflicts, with the pass located by what is tested in it rather than by how the test is written.)"""
+    from ..astutil import anon, cfg_of, error_names, local_names, returns_error, short, stmt_calls, where
+    from .registries import _adds_into, _helpers_of, _own_rerun_sets, _passes_before, modification_sets
+
+    ix = ctx.py
+    cfgs: dict = {}
+    g, loop, _tests, _at = passes[0]
+    reg = region(ix, f)
+    renames = [(h, s) for h in reg for s in cfg_of(h, cfgs).stmts() if stmt_calls(s, "set_python_name")]
+    rep.floor("parameter_renames", len(renames), 2)
+    mods = modification_sets(g, ix)
+    rep.require(mods, "the set in which the parameter pass records its renames and which decides the re-run")
+    helpers = _helpers_of(ix, g)
+    cfg_g = cfg_of(g, cfgs)
+
+    def records_in(h: Any, hmods: set[str]) -> Any:
+        hh = _helpers_of(ix, h)
+        return lambda n: isinstance(n, ast.stmt) and bool(_adds_into(h, n, hh) & hmods)
+
+    for h, s in renames:
+        # every path from the rename to the next parameter records the modification (which forces another pass)
+        if h is g:
+            ok = bool(_adds_into(g, s, helpers) & mods) or cfg_g.every_path_passes(s, loop, records_in(g, mods))
+        else:
+            # renamed inside a helper of the pass: recorded before the helper returns, or after each call of it in the pass
+            hm = modification_sets(h, ix) if h is not f else set()
+            ok = bool(hm) and cfg_of(h, cfgs).every_path_passes(s, "EXIT", records_in(h, hm))
+            if not ok:
+                at = [c for c in cfg_g.stmts() if stmt_calls(c, h.name)]
+                ok = bool(at) and all(bool(_adds_into(g, c, helpers) & mods) or cfg_g.every_path_passes(c, loop, records_in(g, mods))
+                                      for c in at)
+        rep.check(ok, rid, f"{short(h)}::rename->{anon(s, local_names(h.node))[:60]}",
+                  "a parameter is renamed but the change is not recorded in modified_params on every path: no re-check runs",
+                  where(h, s), lhs=norm(s)[:80], rhs="followed by <modified set>.add on every path to the next iteration")
+    # the pass is repeated: it calls the check again, or the check drives it from a loop whose continuation reads the recorded set
+    recursive = [s for h in reg for s in cfg_of(h, cfgs).stmts() if stmt_calls(s, f.name)]
+    driven = g is not f and any(isinstance(w, ast.While) and any(stmt_calls(s, g.name) for b in w.body for s in ast.walk(b) if isinstance(s, ast.stmt))
+                                for w in ast.walk(f.node)) and bool(_own_rerun_sets(f))
+    looped = g is f and any(isinstance(w, ast.While) and any(x is loop for b in w.body for x in ast.walk(b)) for w in ast.walk(f.node)) \
+        and bool(_own_rerun_sets(f))
+    rep.check(bool(recursive) or driven or looped, rid, f"{short(f)}::re-run", "the conflict check no longer re-runs itself after modifications",
+              where(f, f.node), lhs="recursive call / driver loop", rhs="present")
+    # no success without the pass: in the function holding the loop every return that is not an error comes after the loop; in the
+    # check itself (when the pass was extracted) every such return comes after the call of the pass
+    scopes: list[tuple[Any, Any]] = [(g, lambda n: n is loop)]
+    if g is not f:
+        scopes.append((f, lambda n: isinstance(n, ast.stmt) and bool(stmt_calls(n, g.name))))
+    for h, is_pass in scopes:
+        cfg_h = cfg_of(h, cfgs)
+        herrs = error_names(h.node)
+        for s in cfg_h.stmts():
+            if isinstance(s, ast.Return) and not returns_error(s, herrs):
+                ok = _passes_before(cfg_h, h.node, s, is_pass)
+                rep.check(ok, rid, f"{short(h)}::success-return", "a success return is reachable without visiting the parameters "
+                                                                   "(reserved names / collisions unchecked)", where(h, s),
+                          lhs=norm(s)[:60], rhs="dominated by the loop over all parameters")
+
+
+def naming_conflict_recheck(rep: Report, ctx: Any, rid: str) -> None:
+    """naming conflict of model attributes: the raw-name fallback is followed by an equality re-check (registries.check_param_conflicts)"""
+    from ..astutil import cfg_of, error_names, returns_error, short, stmt_calls, terminals, where
+    from .registries import _single_assignments
+
+    ix = ctx.py
+    g2 = ix.func("model_property._resolve_naming_conflict")
+    cfg2 = cfg_of(g2, {})
+    sets = [s for s in cfg2.stmts() if stmt_calls(s, "set_python_name")]
+
+    def names_equal(t: ast.expr) -> "bool | None":
+        """value of test atom t when the two python names are (still) equal; None for any other test"""
+        if isinstance(t, ast.Name) and t.id in _single_assignments(g2.node):
+            t = _single_assignments(g2.node)[t.id]
+        if isinstance(t, ast.Compare) and len(t.ops) == 1 and isinstance(t.ops[0], (ast.Eq, ast.NotEq)) and \
+                all(isinstance(y, ast.Attribute) and y.attr == "python_name" for y in (t.left, t.comparators[0])):
+            return isinstance(t.ops[0], ast.Eq)
+        return None
+
+    # after the raw-name fallback the two names are compared again, and while they are equal nothing but an error comes out:
+    # evaluated over the paths (early return or nested, == or != with swapped branches, the comparison kept in a local first)
+    after: set[object] = set()
+    for s in sets:
+        after |= cfg2.reachable_from(s)
+    terms, falls = terminals(g2.node.body, names_equal)
+    compared = any(names_equal(x) is not None for st in after if isinstance(st, ast.If) for x in ast.walk(st.test))
+    ok = bool(sets) and compared and not falls and all(isinstance(t, ast.Raise) or returns_error(t, error_names(g2.node)) for t in terms if t in after)
+    rep.check(ok, rid, f"{short(g2)}::re-check", "raw-name fallback is not followed by an equality test that returns an error",
+              where(g2, g2.node), lhs="set_python_name(..., skip_snake_case=True) x2", rhs="then `if first.python_name == second.python_name: return PropertyError`")
+
+
+def parameter_reservation(rep: Report, ctx: Any, rid: str, own_names: "set[str]") -> "set[str]":
+    """The endpoint functions declare arguments of their own next to the document's parameters; a parameter whose identifier is one
+    of them has to be renamed, and - since the conflict resolution renames parameters itself - examined again after every rename.
+    Necessary: the names are tested on the IDENTIFIER (what is written into the signature: any document spelling that is normalised
+    to the reserved word collides, and only those), in the pass that is repeated while anything was renamed.
+    -> the identifiers no parameter can have in the default naming mode"""
+    from ..astutil import cfg_of, short, stmt_of, where
+
+    ix = ctx.py
+    ecls = ix.cls("Endpoint")
+    ep = ecls.methods.get("_check_parameters_for_conflicts")
+    rep.require(ep, "Endpoint._check_parameters_for_conflicts")
+    fns: list[Any] = []
+    for m in ecls.methods.values():
+        for g in region(ix, m):
+            if g not in fns:
+                fns.append(g)
+    # a test of the identifier against strings inside the conflict check is a reservation whatever the strings are; any other test
+    # of a name is looked at when it is about a name the endpoint functions bind themselves (`own_names`, read from the templates)
+    check_region = region(ix, ep)
+    tests = [t for t in name_tests(ix, fns) if (t.level == "identifier" and t.g in check_region) or set(t.strings) & own_names]
+    rep.require(tests, "a test of parameter names against strings written in the generator (the reservation of the endpoint "
+                       "functions' own argument names) in the methods of Endpoint and their helpers")
+    passes = conflict_passes(ix, ep, [t for t in tests if t.level == "identifier"])
+    rep.require(passes or not any(t.level == "identifier" and t.g in check_region for t in tests),
+                "the loop over the parameters around the test of their identifiers against the reserved names in the conflict check")
+    in_pass = {id(t) for _g, _lp, ts, _at in passes for t in ts}
+    reserved = {s_ for t in tests if id(t) in in_pass for s_ in t.strings}
+    for t in tests:
+        ok = id(t) in in_pass or (set(t.strings) & own_names) <= reserved
+        if t.level == "identifier":
+            msg = (f"{t.strings} are reserved by a test of a parameter's identifier outside the pass over all parameters that is repeated "
+                   f"after every rename: an identifier that the conflict resolution itself produces is not examined")
+        else:
+            msg = (f"{t.strings} are reserved by a test of the document's spelling of a parameter: only a parameter spelled exactly like "
+                   f"the reserved word is renamed, every other spelling that is normalised to the same identifier keeps it and stands next "
+                   f"to the endpoint function's own argument")
+        rep.check(ok, rid, f"{short(t.g)}::reserved-names[{t.level}]", msg, where(t.g, t.node),
+                  lhs=f"{norm(t.node)[:80]}", rhs="a test of <parameter>.python_name inside the repeated conflict pass covers these names")
+    for g, lp, _ts, at in passes:
+        # no parameter slips through a round unexamined: every path from the start of a round to the next one makes the test (a round
+        # that ends in an error needs none; a test made in what the loop iterates over is made for every element)
+        cfg = cfg_of(g, {})
+        at_stmts = {id(stmt_of(g.node, n)) for n in at}
+        ok = id(lp) in at_stmts or id(lp.body[0]) in at_stmts or cfg.every_path_passes(lp.body[0], lp, lambda n: id(n) in at_stmts)
+        rep.check(ok, rid, f"{short(g)}::every-parameter-examined",
+                  "a round of the pass over the parameters can reach the next parameter without having tested this one's identifier against "
+                  "the reserved names: a parameter that takes that path keeps a reserved identifier", where(g, lp),
+                  lhs="paths through one round of the loop", rhs="each passes the reserved-name test (or ends in an error)")
+    if passes:
+        conflict_pass_rules(rep, ctx, rid, ep, passes)
+    else:
+        rep.not_decided.append("R18.2: no pass over the parameters tests their identifiers against reserved names, so the facts stated over "
+                               "that pass (renames recorded, pass repeated, no success without it) were not evaluated")
+    naming_conflict_recheck(rep, ctx, rid)
+    rep.indexed["reserved_name_tests"] = len(tests)
+    return reserved if passes else {s_ for t in tests if t.level == "identifier" for s_ in t.strings}
 
 
 def run(rep: Report, ctx: Any) -> str:
@@ -571,8 +841,11 @@ def run(rep: Report, ctx: Any) -> str:
                       "read of t whose latest binding may be the document's, a document-name read whose latest binding is the "
                       "template's (clobbered), a duplicate parameter, a duplicate class attribute, or a class-body read of a name the "
                       "template binds at module level after a document-named attribute was assigned")
-    rep.rule("R18.2", "the reserved-word renaming is applied on every path of both name constructors and the operation-parameter "
-                      "reservation exists")
+    rep.rule("R18.2", "the reserved-word renaming is applied on every path of both name constructors; the arguments the endpoint functions "
+                      "declare themselves are kept from the parameters by a test of each parameter's IDENTIFIER (python_name, however "
+                      "the value reaches the test: locals, helper parameters, module / class constants) - never of the document's "
+                      "spelling - made on every path through a round of the pass over all parameters that is repeated while anything "
+                      "was renamed; every rename is recorded, the pass is repeated, and no success return avoids it")
     rep.rule("R18.3", "the two spellings of a document name keep to their roles: the Python identifier made from it (`python_name`, which "
                       "the generator renames) is never written inside a string literal of the generated code - where keys and wire names "
                       "stand - and the document's own spelling (`name` of an object that has a `python_name`) never outside one")
@@ -583,15 +856,28 @@ def run(rep: Report, ctx: Any) -> str:
                       "collection as keywords, some store to that string's attribute writes a value that depends on the `python_name` of "
                       "the members of the same collection (through locals, comprehensions, lambdas and helper functions of the module)")
     reserved = ch.reserved_words(None)
-    # reserved parameter names of operations, read from the AST
-    ep = ix.cls("Endpoint").methods.get("_check_parameters_for_conflicts")
-    rep.require(ep, "Endpoint._check_parameters_for_conflicts")
-    # the names it reserves (any spelling, wherever the parameter pass lives - the method or the private helpers it delegates to):
-    # the strings every parameter's python_name is tested against
-    from .registries import endpoint_reserved_names
+    w = CanonWalker(ctx.jinja, type_idents(ix))
+    w.inner_required = inner_properties_required(ix)
+    rep.indexed["inner_properties_required"] = w.inner_required
+    walked: dict[str, tuple[Scope, list[Scope]]] = {}
+    for tn in TEMPLATES:
+        rep.require(tn in ctx.jinja.templates, f"template {tn}")
+        root = scan(w.walk_template(tn), tn)
+        scopes: list[Scope] = []
 
-    endpoint_reserved: set[str] = set(endpoint_reserved_names(ix)) or reserved_parameter_names(ix, ep)
-    rep.require(endpoint_reserved, "reserved parameter names (strings a python_name is tested against) in _check_parameters_for_conflicts")
+        def collect(s: Scope) -> None:
+            scopes.append(s)
+            for c in s.children:
+                collect(c)
+
+        collect(root)
+        walked[tn] = (root, scopes)
+    # the names the endpoint functions bind themselves (arguments, locals): what a reservation of parameter names is about
+    endpoint_own = {e.name for tn, (_r, scs) in walked.items() if tn.startswith("endpoint") for sc in scs if sc.kind == "function"
+                    for e in sc.events if not e.hole and e.kind in ("BIND", "PARAM")}
+    # the identifiers an operation keeps from its parameters (read from the tests the parser makes, wherever they are made); with the
+    # facts about the conflict pass they are made in
+    endpoint_reserved: set[str] = parameter_reservation(rep, ctx, "R18.2", endpoint_own)
     rep.indexed["reserved_words"] = len(reserved)
     rep.indexed["endpoint_reserved"] = sorted(endpoint_reserved)
     rep.assumptions += [
@@ -601,25 +887,12 @@ def run(rep: Report, ctx: Any) -> str:
         "over-approximation of the template flow graph)",
     ]
 
-    w = CanonWalker(ctx.jinja, type_idents(ix))
-    w.inner_required = inner_properties_required(ix)
-    rep.indexed["inner_properties_required"] = w.inner_required
     n_scopes = 0
     n_fixed = 0
     n_events = 0
     n_sites = n_raw = n_pairs = n_fmt = 0
     for tn in TEMPLATES:
-        rep.require(tn in ctx.jinja.templates, f"template {tn}")
-        items = w.walk_template(tn)
-        root = scan(items, tn)
-        scopes: list[Scope] = []
-
-        def collect(s: Scope) -> None:
-            scopes.append(s)
-            for c in s.children:
-                collect(c)
-
-        collect(root)
+        root, scopes = walked[tn]
         got = spelling_roles(rep, tn, scopes)
         n_sites += got[0]
         n_raw += got[1]
@@ -693,7 +966,7 @@ def run(rep: Report, ctx: Any) -> str:
     rep.floor("skeleton_events", n_events, 7500)
     rep.floor("identifier_hole_sites", n_sites, 10)
     rep.floor("wire_name_roots", n_raw, 3)
-    rep.floor("overlapping_hole_classes", n_pairs, 40)
+    rep.floor("overlapping_hole_classes", n_pairs, 59)
     rep.floor("prepared_format_strings", n_fmt, 1)
     rep.indexed["skeleton_truncated_recursions"] = w.truncated
 
@@ -710,9 +983,6 @@ def run(rep: Report, ctx: Any) -> str:
                           f"{'validated' if p.result.valid else 'prefixed'}-path",
                           "a return path of the name constructor does not pass through the reserved-word renaming",
                           where=f"{f.module.rel}:{p.line}", lhs=p.desc, rhs="passes fix_reserved_words")
-    from .registries import check_param_conflicts
-
-    check_param_conflicts(rep, ctx, "R18.2")
     # positive control: a synthetic scope in which a hole binds a name the template reads afterwards
     from ..skelscan import scan_lines
 
